@@ -290,12 +290,14 @@ func init() {
 // KeyIndex picks one of the fixed process-wide secp256k1 keys.
 func KeyIndex(t *rapid.T, label string) int { return rapid.IntRange(0, nKeys-1).Draw(t, label) }
 
-func Key(i int) *ecdsa.PrivateKey      { return keys[i] }
-func BtcKey(i int) *btcec.PrivateKey   { return btcKeys[i] }
-func PubKey(i int) []byte              { return common.CopyBytes(pubs[i]) }
-func PubKeyCompressed(i int) []byte    { return common.CopyBytes(pubsC[i]) }
-func KeyAddressBytes(i int) [20]byte   { return crypto.PubkeyToAddress(keys[i].PublicKey, common.Location{0, 0}).Bytes20() }
-func NumKeys() int                     { return nKeys }
+func Key(i int) *ecdsa.PrivateKey    { return keys[i] }
+func BtcKey(i int) *btcec.PrivateKey { return btcKeys[i] }
+func PubKey(i int) []byte            { return common.CopyBytes(pubs[i]) }
+func PubKeyCompressed(i int) []byte  { return common.CopyBytes(pubsC[i]) }
+func KeyAddressBytes(i int) [20]byte {
+	return crypto.PubkeyToAddress(keys[i].PublicKey, common.Location{0, 0}).Bytes20()
+}
+func NumKeys() int { return nKeys }
 
 // AddressBytes draws 20 raw address bytes by (zone prefix, ledger bit, free bytes). loc is the
 // node location the address is biased towards (ignored unless it is a zone).
